@@ -8,6 +8,7 @@ import (
 	"sort"
 	"strings"
 
+	"github.com/woodsbury/decimal128"
 	"github.com/woodsbury/jmespath/internal/verifmc/core"
 	"github.com/woodsbury/jmespath/internal/verifmc/ref"
 )
@@ -154,6 +155,26 @@ func init() {
 		}
 		fmt.Println("reference:", ref.Eval(args[0], core.Norm(doc)).String())
 		fmt.Println("impl:     ", core.Search(args[0], doc).Short())
+		return 0
+	}
+}
+
+func init() {
+	core.Commands["dec"] = func(args []string) int {
+		// jmc dec <a> <op> <b>: show what decimal128 does
+		a, b := decimal128.MustParse(args[0]), decimal128.MustParse(args[2])
+		var c decimal128.Decimal
+		switch args[1] {
+		case "+":
+			c = a.Add(b)
+		case "*":
+			c = a.Mul(b)
+		case "/":
+			c = a.Quo(b)
+		case "-":
+			c = a.Sub(b)
+		}
+		fmt.Println(c.String(), "inf:", c.IsInf(0), "nan:", c.IsNaN())
 		return 0
 	}
 }
